@@ -17,7 +17,8 @@ CASE_TIMEOUT = 120
 SEARCH_CAP = 600
 RULE = ('three streams over the 13 table files, points3d.txt, the 3 feature descriptor files and the pairs file: '
         '(written) a generated dataset is saved by the real kapture_to_dir and each written file is handed, byte for byte, to '
-        'the specification-level parser; (layout) a table is rendered with free layout choices per line - blanks (space, tab, '
+        'the specification-level parser - also files written AFTER the objects were saved once and edited in memory through the '
+        'public API (rescale, pose / record edits), judged against the content in memory at the second save; (layout) a table is rendered with free layout choices per line - blanks (space, tab, '
         'VT, FF, US) around every field, comment and blank lines anywhere after the version line, row permutation, \\n or '
         '\\r\\n, leading zeros and "+" on integers, alternative spellings of floats, duplicate keys, optional id filters - and '
         'loaded by the real *_from_file reader (incl. nested rigs in any row order with the sensor-id filter, and points3d.txt '
@@ -309,8 +310,18 @@ def gen_cases(rng, tier):
         elif i < 5:
             # nested rigs; the layout stream renders their rows in any order (parent first, child first)
             d = cc.gen_dataset(rng, present={'sensors', 'rigs', 'trajectories'}, size=3, nested_rigs=True)
+        elif i < 9:
+            # 2-3 devices of the same kind at common timestamps, for every records kind
+            d = cc.gen_dataset(rng, present={p for p in cc.TABLE_PARTS if p != 'observations'}, size=2, multi_device=True)
         else:
             d = cc.gen_dataset(rng)
+        if i < 9 or i % 5 == 0:
+            # a file written AFTER the in-memory objects were saved once and then edited through the public API
+            dm = d if (d['rigs'] or d['trajectories']) else cc.gen_dataset(rng, present={'sensors', 'rigs', 'trajectories', 'records_wifi', 'records_gnss'}, size=3)
+            muts = cc.gen_mutations(rng, dm)
+            for p in ('rigs', 'trajectories', 'records_wifi', 'records_gnss', 'records_lidar', 'sensors'):
+                if dm[p] is not None:
+                    cases.append({'kind': 'written', 'part': p, 'data': _sub_dataset(dm, p), 'mutations': muts})
         if 2 <= i < 5 and d['rigs']:
             # the same nested rigs with the rows of each rig kept together, outermost rig first / innermost rig first
             groups = {}
@@ -334,7 +345,7 @@ def gen_cases(rng, tier):
             cases.append({'kind': 'written', 'part': p, 'data': sub})
         # (layout) and (malformed): a few parts of the dataset
         for p in present:
-            if rng.random() < 0.6:
+            if rng.random() < 0.6 or 5 <= i < 9:
                 cases.append(_layout_case(rng, d, p))
             if rng.random() < 0.3:
                 m = _malformed_case(rng, d, p)
@@ -357,6 +368,15 @@ def run_impl(case, ctx):
         out = {'kind': 'written', 'save_exc': None, 'texts': {}, 'read': {}}
         try:
             k = cc.build_kapture(d)
+            if case.get('mutations') is not None:
+                os.makedirs(root)
+                kcsv.kapture_to_dir(root, k)
+                cc.touch(k)
+                shutil.rmtree(root)
+                muts = [m for m in case['mutations'] if cc.mutation_applies(m, d)]
+                cc.apply_mutations(k, d, muts)
+                d = cc.extract(k)
+                out['current'] = d
             os.makedirs(root)
             kcsv.kapture_to_dir(root, k)
             files = cc.read_text_files(root)
@@ -384,7 +404,7 @@ def run_impl(case, ctx):
 
 def _written_items(case, obs):
     """[(key, text, expected width, expected rows (file order))] for a written case"""
-    d, part = case['data'], case['part']
+    d, part = obs.get('current') or case['data'], case['part']
     items = []
     if part in cc.FEAT_PARTS:
         for row in d[part]:
@@ -451,7 +471,7 @@ def nontrivial(case, obs):
 
 def classify(case, obs):
     if case['kind'] == 'written':
-        return f'written/{case["part"]}'
+        return f'written/{case["part"]}' + ('/after-edit' if case.get('mutations') is not None else '')
     if case['kind'] == 'layout':
         return f'layout/{case["part"]}/{"filtered" if case.get("ids") is not None or case.get("kp") is not None else "all"}'
     return f'malformed/{case["part"]}/{case.get("mutation")}/{"raises" if obs["exc"] else "value"}'
@@ -475,6 +495,8 @@ def shrink(case):
                 continue        # the expected content would have to be recomputed
             yield c
         return
+    if case.get('mutations') is not None:
+        return                      # the edits refer to rows by index
     d, part = case['data'], case['part']
     v = d[part]
     rows = v[1] if part == 'points3d' else v
